@@ -105,6 +105,38 @@ def feed_single(rep, tier):
     return data
 
 
+FUZZ_PLAN = {"quick": (8, 6), "thorough": (14, 30)}     # (jobs, runs per job)
+
+
+def fuzz_results(tier):
+    """byte-level fuzzing of poll()/poll_multi() with every application set (pbv fuzz), validated by TraceFuzz"""
+    seed = core.seed()
+    d = core.workdir("fuzz", tier, clean=True)
+    njobs, runs = FUZZ_PLAN[tier]
+    jobs = [(["fuzz", "--tier", tier, "--seed", seed * 6151 + k, "--runs", runs], os.path.join(d, "fuzz_%02d.ndjson" % k)) for k in range(njobs)]
+    core.run_drivers(jobs)
+    results = core.tlc_traces("TraceFuzz", "TraceFuzz.cfg", [o for _, o in jobs])
+    for (args, out), res in zip(jobs, results):
+        res["driver_args"] = args
+        res["runs"] = runs
+    return results
+
+
+def feed_fuzz(rep, files):
+    tot = {}
+    for res in files:
+        def info(b, res=res):
+            ln = b["l"]
+            ctx = core.read_lines(res["file"], range(max(1, ln - 2), ln + 1))
+            return {"driver_args": res["driver_args"], "trace": res["file"], "line": ln, "context": [ctx[k] for k in sorted(ctx)], "tracespec": "TraceFuzz"}
+        cov = res.pop("cov", {})
+        for k, v in cov.items():
+            tot[k] = tot.get(k, 0) + v
+        rep.add_trace_result(dict(res, cov={}), info)
+        rep.traces += res.get("runs", 0)
+    rep.extra["fuzz"] = tot
+
+
 def run(prop, tier):
     import p_models
     rep = core.Report(prop, tier)
@@ -115,6 +147,7 @@ def run(prop, tier):
     if prop == "C05":
         import p_dp
         p_dp.feed(rep, p_dp.dp_results(tier))
+        feed_fuzz(rep, fuzz_results(tier))
     files = ring_results(tier)
     feed(rep, files, SERVES.get(prop))
     rep.samples = sample_events(files, (SERVES.get(prop) or ("ff",))[0])
